@@ -187,7 +187,7 @@ def run(ctx):
     cases = [(x, kind, d) for x in rx for kind in ("rc", "its") if (kind == "its" or x["cc"]) for d in ("fwd", "bwd")]
     step = 14 if ctx.quick else 1
     for i, (x, kind, d) in enumerate(cases):
-        if not ctx.mine(i) or (i // ctx.nshards) % step != ctx.seed % step:
+        if not ctx.mine(i) or ((i // ctx.nshards) % step != ctx.seed % step and x["rid"] < 10000):
             continue
         if ctx.out_of_time(0.6):
             ctx.count("own_truncated_by_budget")
